@@ -15,37 +15,43 @@ import (
 type Operation string
 
 const (
-	OpCreateBucket            Operation = "CreateBucket"
-	OpDeleteBucket            Operation = "DeleteBucket"
-	OpListBuckets             Operation = "ListBuckets"
-	OpHeadBucket              Operation = "HeadBucket"
-	OpListObjects             Operation = "ListObjects"
-	OpHeadObject              Operation = "HeadObject"
-	OpGetObject               Operation = "GetObject"
-	OpPutObject               Operation = "PutObject"
-	OpCopyObject              Operation = "CopyObject"
-	OpAppendObject            Operation = "AppendObject"
-	OpDeleteObject            Operation = "DeleteObject"
-	OpDeleteObjects           Operation = "DeleteObjects"
-	OpCreateMultipartUpload   Operation = "CreateMultipartUpload"
-	OpUploadPart              Operation = "UploadPart"
-	OpUploadPartCopy          Operation = "UploadPartCopy"
-	OpCompleteMultipartUpload Operation = "CompleteMultipartUpload"
-	OpAbortMultipartUpload    Operation = "AbortMultipartUpload"
-	OpListMultipartUploads    Operation = "ListMultipartUploads"
-	OpListParts               Operation = "ListParts"
-	OpGetBucketCORS           Operation = "GetBucketCORS"
-	OpPutBucketCORS           Operation = "PutBucketCORS"
-	OpDeleteBucketCORS        Operation = "DeleteBucketCORS"
-	OpGetBucketWebsite        Operation = "GetBucketWebsite"
-	OpPutBucketWebsite        Operation = "PutBucketWebsite"
-	OpDeleteBucketWebsite     Operation = "DeleteBucketWebsite"
-	OpGetBucketLifecycle      Operation = "GetBucketLifecycle"
-	OpPutBucketLifecycle      Operation = "PutBucketLifecycle"
-	OpDeleteBucketLifecycle   Operation = "DeleteBucketLifecycle"
-	OpGetBucketVersioning     Operation = "GetBucketVersioning"
-	OpPutBucketVersioning     Operation = "PutBucketVersioning"
-	OpListObjectVersions      Operation = "ListObjectVersions"
+	OpCreateBucket                 Operation = "CreateBucket"
+	OpDeleteBucket                 Operation = "DeleteBucket"
+	OpListBuckets                  Operation = "ListBuckets"
+	OpHeadBucket                   Operation = "HeadBucket"
+	OpListObjects                  Operation = "ListObjects"
+	OpHeadObject                   Operation = "HeadObject"
+	OpGetObject                    Operation = "GetObject"
+	OpPutObject                    Operation = "PutObject"
+	OpCopyObject                   Operation = "CopyObject"
+	OpAppendObject                 Operation = "AppendObject"
+	OpDeleteObject                 Operation = "DeleteObject"
+	OpDeleteObjects                Operation = "DeleteObjects"
+	OpCreateMultipartUpload        Operation = "CreateMultipartUpload"
+	OpUploadPart                   Operation = "UploadPart"
+	OpUploadPartCopy               Operation = "UploadPartCopy"
+	OpCompleteMultipartUpload      Operation = "CompleteMultipartUpload"
+	OpAbortMultipartUpload         Operation = "AbortMultipartUpload"
+	OpListMultipartUploads         Operation = "ListMultipartUploads"
+	OpListParts                    Operation = "ListParts"
+	OpGetBucketCORS                Operation = "GetBucketCORS"
+	OpPutBucketCORS                Operation = "PutBucketCORS"
+	OpDeleteBucketCORS             Operation = "DeleteBucketCORS"
+	OpGetBucketWebsite             Operation = "GetBucketWebsite"
+	OpPutBucketWebsite             Operation = "PutBucketWebsite"
+	OpDeleteBucketWebsite          Operation = "DeleteBucketWebsite"
+	OpGetBucketLifecycle           Operation = "GetBucketLifecycle"
+	OpPutBucketLifecycle           Operation = "PutBucketLifecycle"
+	OpDeleteBucketLifecycle        Operation = "DeleteBucketLifecycle"
+	OpGetBucketVersioning          Operation = "GetBucketVersioning"
+	OpPutBucketVersioning          Operation = "PutBucketVersioning"
+	OpListObjectVersions           Operation = "ListObjectVersions"
+	OpGetBucketNotification        Operation = "GetBucketNotification"
+	OpPutBucketNotification        Operation = "PutBucketNotification"
+	OpGetObjectTagging             Operation = "GetObjectTagging"
+	OpPutObjectTagging             Operation = "PutObjectTagging"
+	OpDeleteObjectTagging          Operation = "DeleteObjectTagging"
+	OpTransitionObjectStorageClass Operation = "TransitionObjectStorageClass"
 )
 
 type Phase string
